@@ -22,6 +22,8 @@ def in_kh(b):
 
 def run(ctx, rep):
     facts = ctx.facts()
+    import fixtures
+    fixtures.run_controls(rep, ['E1', 'E5'], lambda: ctx.reload())
     rep.rule('E1', e1_typestate.__doc__.strip().split('\n')[0])
     rep.rule('E13', 'symmetric adjacency update')
     rep.rule('E8', e8_formulas.__doc__.strip().split('\n')[0])
